@@ -70,6 +70,14 @@ def scenario(draw, n, mode):
             'ignA': [draw(gen.ignored_values), draw(gen.ignored_values)],
             'ignB': [draw(gen.ignored_values), draw(gen.ignored_values)],
         })
+    if draw(st.integers(0, 3)) == 0:
+        # a flag-1 point of about 1 mJy whose transform log10 F - 0.5 (sigma/F)^2 / ln10 is 0 (to rounding): its flag-4 twin
+        # carries the value 0.0 itself, a legal log10 flux
+        j0 = draw(st.integers(0, n - 1))
+        r = draw(gen.logfloat(1e-2, 0.5))
+        F0 = 10. ** (0.5 * r * r / of.LN10)
+        pools[j0]['fit1'] = [F0, r * F0]
+        pools[j0]['twin_zero'] = True
     sc = {'law': law, 'filters': filters, 'pools': pools, 'mode': mode,
           'av_range': draw(st.sampled_from([[0., 10.], [-1e3, 1e3], [0., 1.], [2., 2.]])),
           'theta': draw(st.lists(st.floats(0.5, 10., allow_nan=False), min_size=n, max_size=n))}
@@ -117,7 +125,10 @@ def make_source(sc, vec, ign='ignA', limits='asis', fit1_as4=False, nine_as_zero
             if fit1_as4:
                 F, s = p['fit1']
                 flags.append(4)
-                flux.append(math.log10(F) - 0.5 * (s / F) ** 2 / of.LN10)
+                t = math.log10(F) - 0.5 * (s / F) ** 2 / of.LN10
+                if p.get('twin_zero') and abs(t) < 1e-14:
+                    t = 0.
+                flux.append(t)
                 err.append(abs(s / F) / of.LN10)
             else:
                 flags.append(1)
@@ -340,6 +351,8 @@ def check_vector(env, vec, labels):
         _, info4 = env.fit(src4, 'flag 1 -> transformed flag 4')
         env.same(info, info4, refs, 'flags %r: flag-1 points given as transformed flag-4 points' % (vec,), 'c03:flag4_not_equivalent')
         labels.add('rel_flag4')
+        if any(sc['pools'][j].get('twin_zero') for j, f in enumerate(vec) if f == 1):
+            labels.add('rel_flag4_twin_value_0.0')
     # 6. a band flagged 0 is as if the band did not exist: a fitter built WITHOUT those bands gives the same fits
     #    (also with remove_resolved=True, where the apertures of the used bands decide which models are dropped)
     zeros = [j for j, f in enumerate(vec) if f == 0]
